@@ -128,6 +128,13 @@ func drawShareProgram(prog *simrt.Stream, b Bounds) *shareProgram {
 		p.frames = []int{65536, 65537, 1 << 17, 1 << 18}[prog.Draw(4)] / p.c
 		p.frames += prog.Draw(3)
 	}
+	medium := false
+	if !huge && prog.Draw(b.MediumOneIn/2) == b.MediumOneIn/2-1 {
+		// rare: between the ordinary and the huge sizes, around powers of two
+		medium = true
+		p.c = []int{1, 2, 1 + prog.Draw(8)}[prog.Draw(3)]
+		p.frames = (mediumTotal(prog) + p.c - 1) / p.c
+	}
 	if prog.Draw(2) == 1 {
 		p.extraCap = 1 + prog.Draw(8)
 	}
@@ -168,6 +175,9 @@ func drawShareProgram(prog *simrt.Stream, b Bounds) *shareProgram {
 	maxTasks, maxOps := 16, 12
 	if huge {
 		contT, contO, maxTasks, maxOps = 2, 2, 4, 3
+	}
+	if medium && p.c*p.frames > 4096 {
+		contT, contO, maxTasks, maxOps = 3, 2, 6, 4
 	}
 	at := 0
 	var roSegs [][2]int
@@ -229,12 +239,12 @@ func drawShareProgram(prog *simrt.Stream, b Bounds) *shareProgram {
 			op := shareOp{}
 			if t.role == roleReader {
 				op.kind = prog.Draw(numReaderOps)
-				if huge && prog.Draw(2) == 1 {
+				if (huge || medium) && prog.Draw(2) == 1 {
 					op.kind = []int{rRead, rReadOther, rConv, rStriped}[prog.Draw(4)] // whole-buffer operations
 				}
 			} else {
 				op.kind = prog.Draw(numWriterOps)
-				if huge && prog.Draw(2) == 1 {
+				if (huge || medium) && prog.Draw(2) == 1 {
 					op.kind = []int{wWrite, wWriteOther, wConv, wStriped}[prog.Draw(4)]
 				}
 			}
@@ -626,6 +636,14 @@ func (h *H[T]) C19(rc *runCtx) *Violation {
 	rc.tally("scenario", scen)
 	rc.tally("strategy", simrt.StrategyNames[sim.Strategy])
 	rc.tally("tasks", spA("%d", len(p.tasks)))
+	switch n := p.c * p.frames; {
+	case n >= 65536:
+		rc.tally("size_class", "huge")
+	case n > 1024:
+		rc.tally("size_class", "medium")
+	default:
+		rc.tally("size_class", "ordinary")
+	}
 	rc.cfg = spA("C=%d frames=%d extracap=%d window=%v(start %d of %d) scenario=%s R=%d W=%d ops(task0)=%d strategy=%s stickyP=%d innerG=%d",
 		p.c, p.frames, p.extraCap, p.window, p.winStart, p.bigFrames, scen, nr, nw, len(p.tasks[0].ops), simrt.StrategyNames[sim.Strategy], sim.StickyP, sim.InnerG)
 	sim.Tracef("config: T=%s %s", h.name, rc.cfg)
